@@ -143,3 +143,8 @@ package par1
 //@     invariant len(shards) == len(d.fileData) + len(d.parityData)
 //@     invariant i >= -1 && i < len(d.fileData) + 0 || i == -1
 //@     invariant cap(repairedPaths) == 0 || fresh(repairedPaths)
+
+//@ func RepairErrorMeansRepairNecessaryButNotPossible
+//@   props C20
+//@   pure
+//@   ensures result == (err == reedsolomon.ErrTooFewShards)
